@@ -109,6 +109,19 @@ func (e *Engine) importedPkg(from *types.Package, name string) *types.Package {
 		if from.Name() == name {
 			return nil
 		}
+		// import aliases used in the package's source files
+		if pp := e.allPkgs[from.Path()]; pp != nil {
+			for _, f := range pp.Syntax {
+				for _, is := range f.Imports {
+					if is.Name != nil && is.Name.Name == name {
+						path := strings.Trim(is.Path.Value, "\"")
+						if p := e.typesPkg(path); p != nil {
+							return p
+						}
+					}
+				}
+			}
+		}
 	}
 	// fall back to any loaded package with this name (prefer mosn ones)
 	var cands []string
